@@ -3,6 +3,7 @@ package main
 import (
 	"fmt"
 	"go/ast"
+	"go/constant"
 	"go/token"
 	"go/types"
 	"strings"
@@ -19,7 +20,7 @@ func checkC14(c *Ctx) {
 		"(C14.count) the placeholder/argument count comparison dominates every indexing of the argument list; (C14.tmpl) the template scanner's step table (3 states x {'{','}',other}) is extracted and equals " +
 		"the reference: [kind,start,end) triples, '{' inside a placeholder and '}' outside one are errors, an unterminated placeholder is an error; (C14.directive) the directive machine's accepted language equals " +
 		"[+]?(.D*)?[E%]? on ALL strings (product automaton) and the five documented forms map to the verbs %.6g %.Nf %+.6g %.Nf(x100)% %.NE; a '#' directive on a non-number and an unknown directive are errors; " +
-		"(C14.bound) the precision accumulator is rejected inside the digit loop once it exceeds its bound (no overflow). Also: 长度/字数 count the current text on every call (no remembered count). C14.units covers every text method: the Go string is never sliced, indexed or measured by bytes (advancing by the decoder's size excepted). NOT decided: the digits fmt renders, 分隔/替换 semantics (delegated to package strings)."
+		"(C14.bound) the precision accumulator is rejected inside the digit loop once it exceeds its bound (no overflow). Also: 长度/字数 count the current text on every call (no remembered count). C14.units covers every text method: the Go string is never sliced, indexed or measured by bytes (advancing by the decoder's size excepted). NOT decided: the digits fmt renders, 分隔/替换 semantics (delegated to package strings). (C14.runeerror) a decoded character is compared with utf8.RuneError only together with the decoded size."
 	R.Assumptions = []string{"fmt.Sprintf renders %f/%E/%g as documented", "the reference step tables in c14.go transcribe manual ch.6"}
 	u := c.Core()
 	checkTextUnits(c, u)
@@ -93,6 +94,7 @@ func checkTextUnits(c *Ctx, u *Universe) {
 		R.check(bad == "", "C14.units", key, u.pos(f.Pos()), "character positions are applied to []rune only", "character positions mixed with byte units: "+bad)
 	}
 	R.min("C14.units", 1)
+	ruleRuneErrorSized(c, u, "C14.runeerror", []string{"pkg/value", "pkg/exec"})
 	// siblings: 长度 counts runes, 字符组 decodes runes
 	for _, s := range []struct{ fn, callee string }{{"strGetLength", "unicode/utf8.RuneCountInString"}, {"strGetCharArray", "unicode/utf8.DecodeRuneInString"}} {
 		f := u.ssaFunc("pkg/value", s.fn)
@@ -836,4 +838,77 @@ func checkDirectiveMachine(c *Ctx, u *Universe) {
 	R.check(okSmall && okBig && fixedState >= 0, "C14.bound", "pkg/exec.parseNumberFormatter:precision", pos,
 		"precision digits accumulate as x*10+d and an accumulator beyond the bound is rejected inside the loop (cannot overflow)",
 		"the precision accumulator is not bounded inside the digit loop (a long digit run overflows int before any check)")
+}
+
+// ruleRuneErrorSized: a decoded character is compared with utf8.RuneError only together with the decoded size (size 1 =
+// undecodable byte; the legitimate character U+FFFD decodes with size 3): otherwise text operations drop or reject a
+// character the text really contains
+func ruleRuneErrorSized(c *Ctx, u *Universe, rule string, rels []string) {
+	R := c.R
+	n, nBad := 0, 0
+	for _, rel := range rels {
+		for _, f := range u.srcFuncs(rel) {
+			for _, b := range f.Blocks {
+				ifi, ok := b.Instrs[len(b.Instrs)-1].(*ssa.If)
+				if !ok {
+					continue
+				}
+				bo, ok := ifi.Cond.(*ssa.BinOp)
+				if !ok || (bo.Op != token.EQL && bo.Op != token.NEQ) {
+					continue
+				}
+				var dec *ssa.Call
+				for _, pr := range [][2]ssa.Value{{bo.X, bo.Y}, {bo.Y, bo.X}} {
+					k, isK := pr[1].(*ssa.Const)
+					ex, isEx := pr[0].(*ssa.Extract)
+					if !isK || !isEx || k.Value == nil || k.Value.Kind() != constant.Int || k.Int64() != 0xFFFD || ex.Index != 0 {
+						continue
+					}
+					if call, isCall := ex.Tuple.(*ssa.Call); isCall && strings.HasPrefix(u.callName(call), "unicode/utf8.DecodeRune") {
+						dec = call
+					}
+				}
+				if dec == nil {
+					continue
+				}
+				n++
+				// the size of the same decoding step is tested in this block's condition chain: in the successor taken when
+				// the character equals RuneError, or in a dominating block
+				isSizeTest := func(blk *ssa.BasicBlock) bool {
+					i2, ok := blk.Instrs[len(blk.Instrs)-1].(*ssa.If)
+					if !ok {
+						return false
+					}
+					b2, ok := i2.Cond.(*ssa.BinOp)
+					if !ok {
+						return false
+					}
+					for _, v := range []ssa.Value{b2.X, b2.Y} {
+						if ex, ok := v.(*ssa.Extract); ok && ex.Tuple == ssa.Value(dec) && ex.Index == 1 {
+							return true
+						}
+					}
+					return false
+				}
+				eqSucc := b.Succs[0]
+				if bo.Op == token.NEQ {
+					eqSucc = b.Succs[1]
+				}
+				ok2 := isSizeTest(eqSucc)
+				for _, d := range f.Blocks {
+					if d != b && d.Dominates(b) && isSizeTest(d) {
+						ok2 = true
+					}
+				}
+				if !ok2 {
+					nBad++
+				}
+				R.check(ok2, rule, u.fname(f)+":rune-error-with-size", u.pos(ifi.Cond.Pos()), "RuneError is told from the character U+FFFD by the decoded size", "a decoded character is compared with utf8.RuneError without looking at the decoded size: the legitimate character U+FFFD (size 3) is treated like an undecodable byte - it is dropped from / rejected in the text, so character counts and slices disagree")
+			}
+		}
+	}
+	if n == 0 {
+		R.hold(rule, "rune-error-comparisons", "", "no comparison of a decoded character with utf8.RuneError in "+strings.Join(rels, ", "))
+	}
+	_ = nBad
 }
